@@ -414,7 +414,7 @@ class Cid(object):
                     "length of field %s must be specified with fixed data format" % _compat.text_repr(field_name),
                     self._location,
                 )
-            if field_length.lower_limit != field_length.upper_limit:
+            if (field_length.lower_limit is None) or (field_length.lower_limit != field_length.upper_limit):
                 raise errors.InterfaceError(
                     "length of field %s for fixed data format must be a specific number but is: %s"
                     % (_compat.text_repr(field_name), field_format.length),
